@@ -285,6 +285,21 @@ func c05Catalogue(ctx *core.Ctx) ([]FaultCase, error) {
 				cases = append(cases, FaultCase{Sc: sc, Dev: victim, Type: ws.Type, Mirror: dev})
 			}
 		}
+		// a point committed and opened with an added small-order component, the honest proof kept (edwards25519 only):
+		// the honest parties either clear the component (and finish with a valid result) or name the sender
+		for _, cp := range cmtPairs {
+			if cp.proto != sc.Proto || sc.Proto.IsEcdsa() {
+				continue
+			}
+			snd := sendersOf(sc, cp.cType)
+			for k, dev := range []int{snd[0], snd[len(snd)-1]} {
+				if k == 1 && (dev == snd[0] || !ctx.Thorough()) {
+					continue
+				}
+				cases = append(cases, FaultCase{Sc: sc, Dev: dev, Type: cp.cType, MayAccept: true, Spec: tamper.Spec{Field: cp.dField, Kind: "addtorsion"},
+					Craft: &CraftSpec{Kind: "addtorsion", CType: cp.cType, CField: cp.cField, DType: cp.dType, DField: cp.dField, Arity: cp.arity}})
+			}
+		}
 		// wrong secret input
 		switch sc.Proto {
 		case pump.EdSigning, pump.EcSigning, pump.EdReshare, pump.EcReshare:
@@ -363,6 +378,8 @@ func judgeFault(fc FaultCase, o *FaultOutcome) [][2]string {
 					continue
 				}
 				switch {
+				case p.Ended > 0 && fc.MayAccept:
+					// neutralised (the result itself is judged by the output oracle)
 				case p.Ended > 0:
 					bad = append(bad, [2]string{"silent-accept", fmt.Sprintf("honest party %d consumed the altered %s.%s and still produced a result", p.G, fc.Type, fc.Spec.Field)})
 				case !p.Err:
